@@ -15,7 +15,7 @@ TRANSLATORS = ["t_moments"]
 REQUIRES = ["From FL Require Import Num Flat Moments Reduction MomentsIO."]
 SHARD = 25
 CHUNK = 2
-CASE_TIMEOUT = 180
+CASE_TIMEOUT = 1200      # wall-clock alarm per case; a case needs ~1-3 s, the margin absorbs a heavily shared machine
 TOL = 1e-8
 
 LEVEL_TEXT = ("Proof (Coq) about the executable models Moments.v / Reduction.v: for every parity moment, ratio, "
